@@ -98,13 +98,84 @@ pub fn check_case(c: &Case, ctx: &mut Ctx) -> CheckResult {
     Ok(())
 }
 
-pub const RULE: &str = "cases = (format, input from {documents, mutated documents, byte soups, out-of-domain FASTQ}, capacity, any policy incl. refusing ones (RefuseAlways, RefuseAbove, DoubleUntilLimited with small limits), chunk/interrupt script with an optional injected source error (one-shot or sticky, any kind) at a generated source call, history of 0..24 operations incl. set_policy, seeks to true record starts, calls after errors and after end). Validity predicate: no panic (catch_unwind, overflow checks on), no livelock (deterministic source-call budget), every record handed out by any call or held by any record set at any time is a record of the input, reader outputs in file order (floor advances, reset by seeks). Non-trivial = the history has a call after an error or after end, or iterates a set after a failed fill, or an injected fault fired. Distinct = hash(case).";
+/// Post-fault behaviour, systematically: the histories of C14's generator, with a one-shot source error at EVERY
+/// source call k of the fault-free run; the whole faulted trace must satisfy the validity predicate.
+pub struct EnumeratedFaults;
+
+impl Prop for EnumeratedFaults {
+    type Case = super::c14::Case;
+    fn strategy(&self, tier: Tier) -> BoxedStrategy<super::c14::Case> {
+        use crate::engine::Prop as _;
+        // histories that retry: every seek is followed by a second seek to the same record and a read
+        super::c14::Faults
+            .strategy(tier)
+            .prop_map(|mut c| {
+                let mut ops = Vec::with_capacity(c.ops.len() * 2);
+                for o in c.ops.drain(..) {
+                    let again = matches!(o, Op::Seek(_));
+                    ops.push(o.clone());
+                    if again {
+                        ops.push(o);
+                        ops.push(Op::Next);
+                    }
+                }
+                c.ops = ops;
+                c
+            })
+            .boxed()
+    }
+    fn check(&self, c: &super::c14::Case, ctx: &mut Ctx) -> CheckResult {
+        let f = fmt_name(c.format);
+        let m = Model::build(c.format, &c.input);
+        let lenient = Model::build_lenient(c.format, &c.input);
+        let recs: Vec<NRec> = lenient.recs.iter().map(|r| r.rec.clone()).collect();
+        let floor = |byte: u64| lenient.recs.iter().position(|r| r.byte as u64 == byte).or(Some(lenient.recs.len()));
+        let run = |fault: Option<(u32, crate::source::EK)>| {
+            let script = Script { chunks: c.chunks.clone(), interrupts: c.interrupts.clone(), fault, sticky: false };
+            let spec = RunSpec { input: &c.input, cap: c.cap, policy: c.policy, script: &script, ops: &c.ops, model: &m };
+            run_ops_fmt(c.format, &spec)
+        };
+        let t0 = run(None);
+        livelock_check(f, &t0)?;
+        let kk = t0.src.borrow().calls.len();
+        let ks: Vec<usize> = match c.only_k {
+            Some(k) => vec![k as usize],
+            None => (0..kk).collect(),
+        };
+        let mut any = false;
+        for k in ks {
+            let ek = crate::source::ALL_EK[k % crate::source::ALL_EK.len()];
+            let t = run(Some((k as u32, ek)));
+            if ctx.counting {
+                ctx.evaluations += 1;
+            }
+            livelock_check(f, &t).map_err(|e| crate::engine::Failure::new(e.sig, format!("fault at source call {}: {}", k, e.msg)))?;
+            let st = check_genuine(f, &recs, &floor, &t).map_err(|e| crate::engine::Failure::new(e.sig, format!("one-shot {} at source call {}: {}", ek.name(), k, e.msg)))?;
+            if st.calls_after_error > 0 {
+                any = true;
+            }
+            if t.steps.iter().any(|s| matches!(&s.ev, Ev::Seek { res: Err(_), .. })) && t.steps.iter().any(|s| matches!(&s.ev, Ev::Seek { res: Ok(_), real: false, .. })) {
+                ctx.class("a failed seek and a later seek served from the buffer in one history");
+            }
+        }
+        ctx.class_n("fault points enumerated ((case, k) pairs)", kk as u64);
+        if any {
+            ctx.nontrivial(c, c);
+        }
+        Ok(())
+    }
+}
+
+pub const RULE: &str = "cases = (format, input from {documents, mutated documents, byte soups, out-of-domain FASTQ}, capacity, any policy incl. refusing ones (RefuseAlways, RefuseAbove, DoubleUntilLimited with small limits), chunk/interrupt script with an optional injected source error (one-shot or sticky, any kind) at a generated source call, history of 0..24 operations incl. set_policy, seeks to true record starts, calls after errors and after end). Validity predicate: no panic (catch_unwind, overflow checks on), no livelock (deterministic source-call budget), every record handed out by any call or held by any record set at any time is a record of the input, reader outputs in file order (floor advances, reset by seeks). Sub-check enumerated-faults: histories in which every seek is retried (seek, same seek again, next), with a one-shot source error at EVERY source call k of the fault-free run; every faulted trace must satisfy the same predicate (evaluations counts the (case, k) pairs). Non-trivial = the history has a call after an error or after end, or iterates a set after a failed fill, or an injected fault fired. Distinct = hash(case).";
 
 pub fn run(tier: Tier) -> i32 {
     let mut run = Run::new("C06", tier, "exploration");
     let p = Total;
     run.replays("total-genuine", &p);
     run.generated("total-genuine", &p, tier.pick(120_000, 5_000_000));
+    let e = EnumeratedFaults;
+    run.replays("enumerated-faults", &e);
+    run.generated("enumerated-faults", &e, tier.pick(15_000, 600_000));
     run.finish(
         RULE,
         &[
@@ -116,5 +187,5 @@ pub fn run(tier: Tier) -> i32 {
 }
 
 pub fn replay(run: &mut Run, file: &std::path::Path) -> Option<bool> {
-    run.replay_file("total-genuine", &Total, file, true)
+    run.replay_file("total-genuine", &Total, file, true).or_else(|| run.replay_file("enumerated-faults", &EnumeratedFaults, file, true))
 }
